@@ -180,3 +180,18 @@ PROPS["C02"] = {
                    "parse(assemble(i)) == i (needs value postconditions on the generated operand parsers); assemble_str is a BOUNDED Kani check.",
     "assumptions": [],
 }
+
+PROPS["C17"] = {
+    "title": "Operand reflection agrees with the parser and the grammar",
+    "units": {"quick": ["operand_reflect", "reflect_sweep"], "thorough": ["operand_reflect", "reflect_sweep", "parser_core"]},
+    "engines": ["verus", "replay-exhaustive"],
+    "level": "proof",
+    "technique": "Verus contracts on id_ref_any, the 60 unwrap_* and the From conversions; parser-side parameter sequences proved against the lifted reflection tables (3 of 6 functions, unit parser_core); exhaustive finite-domain sweep of reflection vs parser on the real crate",
+    "design_ref": "DESIGN.md §4 C17",
+    "explanation": "Proved (Verus): an operand reports an id iff it is IdRef/IdScope/IdMemorySemantics; unwrap_k returns the payload of variant k and is only "
+                   "defined on it; From<payload> builds that variant (round trip by composition). Proved in parser_core: parse_execution_mode_arguments, "
+                   "parse_memory_access_arguments, parse_tensor_addressing_operands_arguments consume exactly the parameters additional_operands reports (lifted). "
+                   "Exhaustive sweep on the real code (not a proof, counted separately): agreement for every enumerant and every bit combination. "
+                   "NOT decided: equality with the Khronos grammar's parameter/capability/extension lists (JSON absent).",
+    "assumptions": [],
+}
